@@ -9,6 +9,7 @@ import (
 	"math/rand"
 	"net/http"
 	"net/textproto"
+	"runtime/debug"
 	"sort"
 	"strings"
 	"sync"
@@ -452,6 +453,9 @@ func WriteMem(data []byte) string {
 	return p
 }
 
+// WriteMemAt writes data at the given path of the in-memory fs.
+func WriteMemAt(p string, data []byte) error { return afero.WriteFile(Fs(), p, data, 0o644) }
+
 func RemoveMem(p string) { _ = Fs().Remove(p) }
 
 // NewProvider decodes a provider from a config map ({type: uri, file: …, limit: …}) through
@@ -508,6 +512,10 @@ type DrainResult struct {
 	Cancelled bool // the drain had to cancel the provider (unbounded)
 	EndOK     bool // every consumer saw ok=false
 	Hang      string
+	Panic     string // a panic inside Run or Acquire/Release (recovered by the harness goroutine)
+	// EndedByConsumers: all consumers got ok=false before Run returned, and the harness
+	// cancelled the provider as the engine does when all instances have finished.
+	EndedByConsumers bool
 }
 
 // Drain runs the provider with n consumers until every consumer sees ok=false and Run
@@ -518,14 +526,30 @@ func Drain(p core.Provider, consumers, max int, watchdog time.Duration) DrainRes
 	defer cancel()
 	var res DrainResult
 	runDone := make(chan error, 1)
-	go func() { runDone <- p.Run(ctx, core.ProviderDeps{Log: zap.NewNop(), PoolID: "verif"}) }()
 	var mu sync.Mutex
+	notePanic := func(where string) {
+		if r := recover(); r != nil {
+			mu.Lock()
+			if res.Panic == "" {
+				res.Panic = fmt.Sprintf("panic in %s: %v\n%s", where, r, debug.Stack())
+			}
+			mu.Unlock()
+			cancel()
+		}
+	}
+	go func() {
+		var err error
+		defer func() { runDone <- err }()
+		defer notePanic("Provider.Run")
+		err = p.Run(ctx, core.ProviderDeps{Log: zap.NewNop(), PoolID: "verif"})
+	}()
 	var count atomic.Int64
 	var wg sync.WaitGroup
 	for i := 0; i < consumers; i++ {
 		wg.Add(1)
 		go func() {
 			defer wg.Done()
+			defer notePanic("Provider.Acquire/Release")
 			for {
 				a, ok := p.Acquire()
 				if !ok {
@@ -556,6 +580,19 @@ func Drain(p core.Provider, consumers, max int, watchdog time.Duration) DrainRes
 			res.RunErr, res.RunDone, gotRun = err, true, true
 		case <-consDone:
 			res.EndOK, gotCons = true, true
+			consDone = nil
+			if !gotRun {
+				// Every consumer has seen end of ammo while Run is still going (e.g. an ammo
+				// whose request cannot be built ends the consumer). The engine cancels the
+				// provider once all instances have finished; do the same after a short grace.
+				select {
+				case err := <-runDone:
+					res.RunErr, res.RunDone, gotRun = err, true, true
+				case <-time.After(300 * time.Millisecond):
+					res.EndedByConsumers = true
+					cancel()
+				}
+			}
 		case <-timer.C:
 			var what []string
 			if !gotRun {
